@@ -394,8 +394,10 @@ def rule_release(m, rep, rid='R4'):
             if m.build.blocks[bi]['cleanup'] or bi == arcs[0]:
                 continue
             ct = norm(T.call_term(bi))
+            if ct[0] != 'call' or len(ct) < 3:
+                continue
             for ai, a in enumerate(ct[2]):
-                if any(x == arc for x in walk(a)):
+                if _hands_over(a, arc):
                     uses.append((bi, strip_generics(t.get('callee_full', '?')), ai))
         allowed = ('<alloc::sync::Arc as core::clone::Clone>::clone', 'alloc::sync::Arc::new',
                    strip_generics(m.spawn.path)) + tuple(strip_generics(p_) for p_ in m.worker_ctors)
@@ -407,6 +409,24 @@ def rule_release(m, rep, rid='R4'):
     caps = [e for blk in m.spawn.blocks for s in blk['stmts'] if s['k'] == 'assign' and s['rv']['k'] == 'agg' and
             s['rv'].get('ak') == 'closure' for e in s['rv']['fields']]
     rep.ob(rid, 'thread-owns-only-the-worker', len(caps) == 1, m.spawn.where(), 'the thread closure captures %s' % caps)
+
+
+def _hands_over(a, arc):
+    """does argument term `a` give the callee the Arc itself (by value or by reference - it could clone it), as opposed to
+    a borrow of what the Arc points to (`&*arc`, a method call on the wrapped sink)?"""
+    a = norm(a)
+    if a == arc:
+        return True
+    if a[0] in ('ref', 'unsize', 'conv', 'mutated'):
+        return _hands_over(a[1], arc)
+    if a[0] in ('deref', 'autoderef', 'load'):
+        return False            # the pointee, not the pointer
+    if a[0] in ('adt', 'tuple', 'closure', 'array'):
+        parts = [v for _, v in a[3]] if a[0] == 'adt' else ([v for _, v in a[2]] if a[0] == 'closure' else list(a[1]))
+        return any(_hands_over(v, arc) for v in parts)
+    if a[0] == 'call':
+        return a[1] == '<alloc::sync::Arc as core::clone::Clone>::clone' and any(_hands_over(x, arc) for x in a[2])
+    return False
 
 
 def rule_drop_nonblocking(m, rep, rid='R5'):
